@@ -122,6 +122,7 @@ type CheckRun struct {
 	EngineErrors []string
 	Known        []*KnownFinding
 	KnownHits    map[string][]string
+	impreciseBase map[string]bool
 	Extra        map[string]any
 	// LoadFailureRelevant: a generated package that does not type-check counts
 	// against the property of this run when the compiler message concerns the
@@ -140,6 +141,7 @@ func NewCheckRun(prop, tier string, seed int64, repo, verif string) (*CheckRun, 
 	}
 	cr := &CheckRun{Prop: prop, Tier: tier, Seed: seed, Repo: repo, VerifDir: verif, Scratch: scratch, Start: time.Now(),
 		Functions: map[string]bool{}, Assumed: map[string]bool{}, Abstracted: map[string]bool{}, KnownHits: map[string][]string{}, Extra: map[string]any{}}
+	SetEmittedNamesPath(filepath.Join(verif, "baseline", "emitted-functions.json"))
 	cr.Known, err = LoadKnownFindings(filepath.Join(verif, "known_findings.txt"))
 	if err != nil {
 		return nil, err
@@ -148,6 +150,11 @@ func NewCheckRun(prop, tier string, seed int64, repo, verif string) (*CheckRun, 
 }
 
 func (cr *CheckRun) Cleanup() {
+	if os.Getenv("GOAGVC_RECORD_EMITTED") != "" {
+		if err := WriteEmittedNames(); err != nil {
+			fmt.Println("ENGINE-ERROR:", err)
+		}
+	}
 	if os.Getenv("GOAGVC_KEEP") == "" {
 		os.RemoveAll(cr.Scratch)
 	} else {
@@ -214,6 +221,9 @@ func (cr *CheckRun) VerifyEncoded(e *FuncEnc, entry string, filter func(o *Oblig
 		cr.EngineErrors = append(cr.EngineErrors, "contract error: "+se)
 	}
 	cr.mu.Unlock()
+	if os.Getenv("GOAGVC_DEBUG_IMPRECISE") != "" && len(e.Imprecise) > 0 {
+		fmt.Printf("IMPRECISE %s: %s\n", e.Name, strings.Join(e.Imprecise, "; "))
+	}
 	if os.Getenv("GOAGVC_DEBUG_OBLS") != "" {
 		for _, o := range all {
 			fmt.Printf("OBL %-10s %v %s\n", o.Status, o.Props, o.Name)
@@ -285,9 +295,45 @@ func (cr *CheckRun) triage(f *Failure, replay func(f *Failure)) {
 		replay(f)
 	}
 	f.Verdict = "violation"
+	// 3. not decided, and not decidable here: the function uses something the
+	// encoder over-approximates (a function value of untraced origin, an
+	// unmodelled instruction), the solver gave no counterexample that replays,
+	// and the bounded stand-in for this property ran on the real code and found
+	// nothing. That is "undecided", reported as such and never as proved.
+	if len(e.Imprecise) > 0 && !cr.impreciseAtBaseline(e.Name) && f.Replay != nil && !f.Replay.Reproduced && f.Replay.Input != "" && f.Replay.Bounded {
+		f.Verdict = "undecided"
+	}
 	cr.mu.Lock()
 	cr.Failures = append(cr.Failures, f)
 	cr.mu.Unlock()
+}
+
+// impreciseAtBaseline: the function already contained an over-approximated
+// construct on the unchanged tree and its obligations discharged all the same
+// (baseline/imprecise-functions.json, regular expressions on the function name
+// without its corpus entry); a failure in it is then not a matter of
+// the subset and stays a violation.
+func (cr *CheckRun) impreciseAtBaseline(name string) bool {
+	cr.mu.Lock()
+	defer cr.mu.Unlock()
+	if cr.impreciseBase == nil {
+		cr.impreciseBase = map[string]bool{}
+		if data, err := os.ReadFile(filepath.Join(cr.VerifDir, "baseline", "imprecise-functions.json")); err == nil {
+			var ns []string
+			if json.Unmarshal(data, &ns) == nil {
+				for _, n := range ns {
+					cr.impreciseBase[n] = true
+				}
+			}
+		}
+	}
+	short := regexp.MustCompile(`^emitted\[[^\]]*\]`).ReplaceAllString(name, "")
+	for pat := range cr.impreciseBase {
+		if regexpMatch(pat, short) {
+			return true
+		}
+	}
+	return false
 }
 
 // Finish prints the verdict lines, writes the evidence file and returns the
@@ -305,6 +351,19 @@ func (cr *CheckRun) Finish(level string, checker string, trusted []string, rule 
 		}
 	}
 	sort.Slice(cr.Failures, func(i, j int) bool { return cr.Failures[i].Obl.Name < cr.Failures[j].Obl.Name })
+	undecided := 0
+	for _, f := range cr.Failures {
+		if f.Verdict != "undecided" {
+			continue
+		}
+		undecided++
+		why := ""
+		if f.Enc != nil && len(f.Enc.Imprecise) > 0 {
+			why = f.Enc.Imprecise[0]
+		}
+		fmt.Printf("UNDECIDED property=%s obligation=%s outside-the-verified-subset: %s; bounded stand-in on the real code: %s: %s\n", cr.Prop, f.Obl.Name, why, f.Replay.Input, f.Replay.Observed)
+		cr.Bounded = append(cr.Bounded, map[string]any{"what": "obligation " + f.Obl.Name + " not decidable: " + why, "bound": f.Replay.Input, "result": f.Replay.Observed, "counts_as_proved": false})
+	}
 	for _, f := range cr.Failures {
 		if f.Verdict != "violation" {
 			continue
@@ -358,6 +417,9 @@ func (cr *CheckRun) Finish(level string, checker string, trusted []string, rule 
 		"level":       level,
 		"wall_s":      round3(time.Since(cr.Start).Seconds()),
 		"violations":  violations,
+	}
+	if undecided > 0 {
+		ev["undecided"] = undecided
 	}
 	known := 0
 	for _, f := range cr.Failures {
@@ -424,6 +486,9 @@ type ReplayResult struct {
 	Observed   string `json:"observed"`
 	Cmd        string `json:"cmd"`
 	Output     string `json:"output"`
+	// Bounded: the harness is a search over generated inputs on the real code
+	// and it ran to completion (a bounded stand-in, not a replay of one model)
+	Bounded bool `json:"bounded,omitempty"`
 }
 
 func regexpMatch(pat, s string) bool {
